@@ -7,14 +7,14 @@
 (* Item: [form, kind, cls]: form "word" | "list" | "nv"; for nv the        *)
 (* literal kind ("bool" "str" "char" "int" "float" "bytestr") and, for     *)
 (* strings, the class of its contents: "true" "false" "digits" "float"     *)
-(* "one_char" "multi" "empty".                                             *)
+(* "one_char" "multi" "empty" "padded" (" true", "17 ", "/**/1.5").         *)
 (***************************************************************************)
 EXTENDS Common
 
 CONSTANTS EMIT
 
 Targets == {"int", "float", "bool", "char", "String", "PathBuf"}
-StrClasses == {"true", "false", "digits", "float", "one_char", "multi", "empty"}
+StrClasses == {"true", "false", "digits", "float", "one_char", "multi", "empty", "padded"}    \* padded: an acceptable text with blanks / a comment around it
 Items ==
   {[form |-> f, kind |-> "", cls |-> ""] : f \in {"word", "list"}}
   \cup {[form |-> "nv", kind |-> k, cls |-> ""] : k \in {"bool", "char", "int", "float", "bytestr"}}
